@@ -488,6 +488,9 @@ impl Engine for C16Engine {
     fn prop(&self) -> &'static str {
         "C16"
     }
+    fn fuzz(&self) -> Option<FuzzSpec> {
+        Some(FuzzSpec { target: "fz_misc", max_len: 64, target_prefix: vec![1], engine_prefix: vec![] })
+    }
     fn level(&self) -> &'static str {
         "fault_enumeration"
     }
@@ -549,8 +552,8 @@ impl Engine for C16Engine {
     }
     fn cases(&self, tier: Tier) -> u32 {
         match tier {
-            Tier::Quick => 1500,
-            Tier::Thorough => 30000,
+            Tier::Quick => 5000,
+            Tier::Thorough => 60000,
         }
     }
     fn rule(&self) -> String {
